@@ -1,0 +1,21 @@
+//go:build verif
+
+package fs
+
+import "sync/atomic"
+
+type verifYieldHolder struct{ fn func(point string) }
+
+var verifYieldFn atomic.Value // of verifYieldHolder
+
+// VerifSetYield installs a callback invoked between the system calls of the
+// lock file protocol (nil uninstalls it). Only with the "verif" build tag.
+func VerifSetYield(fn func(point string)) {
+	verifYieldFn.Store(verifYieldHolder{fn: fn})
+}
+
+func verifYield(point string) {
+	if h, ok := verifYieldFn.Load().(verifYieldHolder); ok && h.fn != nil {
+		h.fn(point)
+	}
+}
